@@ -8,6 +8,8 @@
                      non-presence container made of such
      Verdict         decoration changes no verdict: Violations(Decorate(d)) = Violations(d)
      WellFormedDeco  the decorated tree has one node per name below a parent
+     AbsentAsEmpty   Decorate of a tree = Decorate of the tree with every absent non-presence
+                     container (outside cases) made present and empty
      MustSound       MustReport is a subset of Violations and empty only with it
    Shapes in Wide are explored with MaxEntries list entries, the others with 2.
    One initial state per shape; the first step picks the data tree.            *)
@@ -19,13 +21,21 @@ Sch == DataShape(shape)
 MCInit == shape \in Shapes /\ picked = FALSE /\ data = {}
 MCNext == /\ ~picked /\ picked' = TRUE /\ UNCHANGED shape
           /\ \E d \in DataTrees(Sch, IF shape \in Wide THEN MaxEntries ELSE 2, MaxLL) : data' = d
-Deco1 == Decorate(Sch, data)
-Idempotent   == picked => Decorate(Sch, Deco1) = Deco1
-ExplicitKept == picked => SubTree(data, Deco1)
-OnlyDefaultsAdded == picked => OnlyDefaults(Sch, data, Deco1)
-Verdict      == picked => Violations(Sch, Deco1) = Violations(Sch, data)
-MustSound    == picked => /\ MustReport(Sch, data) \subseteq Violations(Sch, data)
-                          /\ (MustReport(Sch, data) = {}) = (Violations(Sch, data) = {})
-WellFormedDeco == picked => WellFormed(data) /\ WellFormed(Deco1) /\ WellFormed(Prune(Sch, Deco1))
-PruneIdem    == picked => Prune(Sch, Prune(Sch, Deco1)) = Prune(Sch, Deco1)
+\* All laws in one invariant so that Decorate / Prune / Violations are evaluated once per tree; a law
+\* that fails is named on the output ("LAW VIOLATED") before TLC reports the invariant.
+Law(name, holds) == holds \/ (PrintT(<<"LAW VIOLATED", name>>) /\ FALSE)
+Laws == picked =>
+  LET d1 == Decorate(Sch, data)
+      p1 == Prune(Sch, d1)
+      v  == Violations(Sch, data)
+      m  == MustReport(Sch, data)
+  IN /\ Law("Idempotent", Decorate(Sch, d1) = d1)
+     /\ Law("ExplicitKept", SubTree(data, d1))
+     /\ Law("OnlyDefaultsAdded", OnlyDefaults(Sch, data, d1))
+     /\ Law("Verdict", Violations(Sch, d1) = v)
+     /\ Law("MustSound", m \subseteq v /\ (m = {}) = (v = {}))
+     /\ Law("WellFormedDeco", WellFormed(data) /\ WellFormed(d1) /\ WellFormed(p1))
+     \* an absent non-presence container is decorated like the same container present and empty
+     /\ Law("AbsentAsEmpty", Prune(Sch, Decorate(Sch, Materialise(Sch, data))) = p1)
+     /\ Law("PruneIdem", Prune(Sch, p1) = p1)
 =============================================================================
